@@ -633,3 +633,93 @@ M('c17_hash_ordering', ['C17'], ['C17-R1', 'C06-R1'], 'member selection goes thr
         #[cfg(feature = "std")]
         let _seen: std::collections::HashSet<usize> = std::collections::HashSet::new();
         let mut num_chosen = 0;'''))
+
+# ---------------------------------------------------------------- C18
+M('c18_ack_answered_with_ping', ['C18', 'C12'], ['C18-R1', 'C18-R2'], 'an unexpected Ack is answered with a Ping (Ack <-> Ping storm)',
+  (LIB, '''                } else {
+                    // May be triggered by a member that slows down (say, you ^Z
+                    // the process and `fg` back after a while).
+                    // Might be interesting to keep an eye on.''', '''                } else {
+                    self.send_message(src, Message::Ping(probe_number), runtime)?;
+                    return custom_broadcasts_result;'''))
+M('c18_feed_answered_with_announce', ['C18'], ['C18-R1', 'C18-R2'], 'a Feed is answered with an Announce (Announce <-> Feed storm)',
+  (LIB, '            // Nothing to do. These messages do not expect any reply\n            Message::Gossip | Message::Feed | Message::Broadcast => {}',
+   '            Message::Feed => self.send_message(src, Message::Announce, runtime)?,\n            Message::Gossip | Message::Broadcast => {}'))
+M('c18_turnundead_reply_before_renewal', ['C18'], ['C18-R2'], 'inactive-sender TurnUndead is answered before trying to renew',
+  (LIB, '''            if message == Message::TurnUndead {
+                self.handle_self_update(Incarnation::default(), State::Down, &mut runtime)?;
+
+                // If we couldn't switch to a fresh identity there's no point
+                // in replying: the sender already considers us down and
+                // would just bounce the same message back, forever
+                if self.connection_state == ConnectionState::Undead {
+                    return Ok(());
+                }
+            }
+
+            if self.config.notify_down_members {
+                self.send_message(src, Message::TurnUndead, runtime)?;
+            }''', '''            if self.config.notify_down_members {
+                self.send_message(src.clone(), Message::TurnUndead, &mut runtime)?;
+            }
+            if message == Message::TurnUndead {
+                self.handle_self_update(Incarnation::default(), State::Down, &mut runtime)?;
+            }'''))
+M('c18_gossip_when_defunct', ['C18', 'C10'], ['C18-R2', 'C18-R4'], 'a non-renewable instance told it is down gossips under its dead identity',
+  (LIB, '''                if !self.attempt_rejoin(&mut runtime)? {
+                    self.become_undead(runtime);
+                }
+            }
+        }
+        Ok(())''', '''                if !self.attempt_rejoin(&mut runtime)? {
+                    self.gossip(&mut runtime)?;
+                    self.become_undead(runtime);
+                }
+            }
+        }
+        Ok(())'''))
+M('c18_reply_in_loop', ['C18'], ['C18-R3'], 'Announce answered with one Feed per known member',
+  (LIB, '            Message::Announce => self.send_message(src, Message::Feed, runtime)?,', '            Message::Announce => {\n                for _ in 0..self.members.num_active().min(3) {\n                    self.send_message(src.clone(), Message::Feed, &mut runtime)?;\n                }\n            }'))
+
+# ---------------------------------------------------------------- C19
+M('c19_gossip_to_down_members', ['C19'], ['C19-R1'], 'gossip targets are drawn from Down records (may include own former identities)',
+  (LIB, '''        self.choice_buf.clear();
+        self.members.choose_active_members(
+            num_members,
+            &mut self.choice_buf,
+            &mut self.rng,
+            |_| true,
+        );''', '''        self.choice_buf.clear();
+        self.members
+            .choose_down_members(num_members, &mut self.choice_buf, &mut self.rng);'''))
+M('c19_filter_by_identity_only', ['C19'], ['C19-R1'], 'announce_to_down only filters the exact own identity, not the own address',
+  (LIB, '''        let own_addr = self.identity.addr();
+        self.choice_buf
+            .retain(|member| member.id().addr() != own_addr);''', '''        let own = self.identity.clone();
+        self.choice_buf.retain(|member| member.id() != &own);'''))
+M('c19_feed_to_announce_dst', ['C19'], ['C19-R1'], 'Feed is sent to the destination named in the Announce instead of its sender',
+  (LIB, '''        let Header {
+            src,
+            src_incarnation,
+            dst: _,
+            message,
+        } = header;''', '''        let Header {
+            src,
+            src_incarnation,
+            dst: hdr_dst,
+            message,
+        } = header;'''),
+  (LIB, '            Message::Announce => self.send_message(src, Message::Feed, runtime)?,', '            Message::Announce => self.send_message(hdr_dst, Message::Feed, runtime)?,'))
+M('c19_down_picker_inverted', ['C19'], ['C19-R2'], 'choose_down_members picks active members',
+  (MEMBER, '        self.choose_members(wanted, output, rng, |member| !member.is_active());', '        self.choose_members(wanted, output, rng, |member| member.is_active());'))
+M('c19_active_picker_ignores_state', ['C19', 'C07'], ['C19-R2', 'C07-R6'], 'choose_active_members also yields Down records',
+  (MEMBER, '            member.is_active() && picker(member.id())', '            picker(member.id())'))
+M('c19_stale_choice_buf', ['C19'], ['C19-R1'], 'broadcast() drains whatever was left in choice_buf',
+  (LIB, '''        self.choice_buf.clear();
+        self.members.choose_active_members(
+            self.config.num_indirect_probes.get(),
+            &mut self.choice_buf,
+            &mut self.rng,
+            |member| self.broadcast_handler.should_add_broadcast_data(member),
+        );
+''', ''))
